@@ -989,6 +989,11 @@ func (d *Data) sendJSONValuesInRange(w http.ResponseWriter, r *http.Request, ctx
 
 		return nil
 	})
+	if err != nil {
+		// Don't let the writes below overwrite a range error and turn it into a
+		// successful but incomplete response.
+		return
+	}
 	switch {
 	case tarOut:
 		tw.Close()
